@@ -344,7 +344,7 @@ ChildPlan World::OnSpawn(Kernel& kk, const std::string& cmd, bool console) {
       if (shape == 0) c.bytes += "\n";
       else if (shape == 1) c.bytes += " text\nmore ";
       else if (shape == 3) c.bytes += std::string("nul\0byte", 8);
-      else if (shape == 4) c.bytes += "\x1b[31mred\x1b[0m\n";
+      else if (shape == 4) c.bytes += (Hash64(std::string(b), 3) % 2) ? "\x1b[31mred\x1b[0m\n" : "\x1b[31mred\x1b[3~del \x1b[0m\n";   // (a CSI may end in ~)
       else if (shape == 5) c.bytes += "\r\ncr ";
       else if (shape == 6) c.bytes += "\xff\xfe high\n";
       plan.steps.push_back(c);
